@@ -6,6 +6,7 @@
    Statements only; proofs are in Proofs/ConvProofs.v. *)
 From Coq Require Import String List NArith Arith Bool.
 From V Require Proofs.Agreement.
+From V Require Import Checkers.Check Proofs.CheckSound.   (* the extracted checkers and their soundness proofs, pinned at the end of this file *)
 From V Require Import Base.Res Gen.Surface Model.Kernels Model.Api Spec.Bfun Proofs.ConvProofs.
 Import ListNotations.
 Open Scope N_scope.
@@ -425,3 +426,17 @@ Print Assumptions C10_every_public_method_modelled.
 Print Assumptions C10_modelled_table.
 Print Assumptions C10_modelled_exact.
 Print Assumptions C10_every_trait_impl_modelled.
+
+
+(* ---- soundness of the extracted checkers that decide this property's statement on the implementation's results *)
+Open Scope N_scope.
+Theorem C10_checker_table_iff : forall n t f,
+  chk_table n t f = true <-> wf n t /\ forall m, m < 2 ^ N.of_nat n -> val t m = f m.
+Proof. exact CheckSound.chk_table_iff. Qed.
+
+Theorem C10_checker_table_unique : forall n t t' f,
+  chk_table n t f = true -> chk_table n t' f = true -> t' = t.
+Proof. exact CheckSound.chk_table_unique. Qed.
+
+Print Assumptions C10_checker_table_iff.
+Print Assumptions C10_checker_table_unique.
